@@ -12,6 +12,7 @@ import (
 	"sort"
 	"strconv"
 	"strings"
+	"sync"
 	"time"
 )
 
@@ -202,22 +203,37 @@ func cmdCheck(args []string) int {
 	if exit != 0 {
 		return exit
 	}
-	timeout := 10
+	timeout, retryTimeout := 10, 30
 	if *tier == "thorough" {
-		timeout = 30
+		timeout, retryTimeout = 30, 90
 	}
 	workers := runtime.NumCPU() / 2
 	if workers < 2 {
 		workers = 2
 	}
 	res := dischargeAll(all, timeout, seed, *tier == "thorough", workers)
-	// retry undecided claimed obligations with the long timeout on all back ends
-	for i, r := range res {
-		if r.O.Expect == "unsat" && !r.OK && (base.Claimed[r.O.Name] || *writeBaseline) && (r.R.Status == "unknown" || r.R.Status == "timeout") {
-			rr := solve(r.O.Query(), 60, seed+1, false)
-			res[i].R = rr
-			res[i].OK = rr.Status == "unsat"
+	// retry undecided claimed obligations with a longer timeout on all back ends (in parallel)
+	{
+		var idx []int
+		for i, r := range res {
+			if r.O.Expect == "unsat" && !r.OK && (base.Claimed[r.O.Name] || *writeBaseline) && (r.R.Status == "unknown" || r.R.Status == "timeout") {
+				idx = append(idx, i)
+			}
 		}
+		var wg sync.WaitGroup
+		sem := make(chan struct{}, workers)
+		for _, i := range idx {
+			wg.Add(1)
+			sem <- struct{}{}
+			go func(i int) {
+				defer wg.Done()
+				defer func() { <-sem }()
+				rr := solve(res[i].O.Query(), retryTimeout, seed+1, false)
+				res[i].R = rr
+				res[i].OK = rr.Status == "unsat"
+			}(i)
+		}
+		wg.Wait()
 	}
 
 	if *writeBaseline {
@@ -324,6 +340,16 @@ func cmdCheck(args []string) int {
 		fmt.Printf("VIOLATION property=%s replay=%s obligation=%s status=%s%s\n", prop, rp.Path, v.O.Name, v.R.Status, suffix)
 		exit = 1
 	}
+	// bounded stand-ins (never counted as proved)
+	standins, sfail := runStandins(*repo, *verif, prop, *tier, seed)
+	for i, f := range sfail {
+		path := filepath.Join(*verif, "replays", fmt.Sprintf("%s-standin-%d.json", prop, i))
+		data, _ := json.MarshalIndent(map[string]interface{}{"property": prop, "kind": "bounded stand-in", "output": f}, "", " ")
+		os.WriteFile(path, data, 0o644)
+		fmt.Printf("VIOLATION property=%s replay=%s bounded-standin failed\n", prop, path)
+		violations = append(violations, OblResult{})
+		exit = 1
+	}
 	wall := time.Since(t0).Seconds()
 	if !*noEvidence {
 		var tb []string
@@ -353,7 +379,7 @@ func cmdCheck(args []string) int {
 			"gone":                     gone,
 			"vacuity_probes":           map[string]int{"run": vacuityN, "passed": vacuityOK},
 			"known_findings_hit":       knownHits,
-			"bounded_standins":         []string{},
+			"bounded_standins":         standins,
 			"integers":                 "mathematical (A1)",
 		}
 		os.MkdirAll(filepath.Join(*verif, "evidence"), 0o755)
